@@ -467,7 +467,11 @@ func validatorChecks(c *caseCtx, rng *rand.Rand, cr *created, ids []peer.ID, pub
 				continue
 			}
 			if st.origin != wantOrigin {
-				c.viol("origin-check-disagrees-with-schedule-definition:"+co.name,
+				dir := "juno-rejects"
+				if st.origin {
+					dir = "juno-accepts"
+				}
+				c.viol("origin-check-disagrees-with-schedule-definition:"+dir,
 					fmt.Sprintf("ValidateShardOrigin(sender, publisher, idx=%d) accepts=%v, sorted-committee definition says %v", u.ShardIndex, st.origin, wantOrigin), w)
 			}
 			// (b) publisher-side definition of validity: origin + proof (publisher's leaf encoding) + signature
